@@ -302,6 +302,28 @@ def call(fn, *a, **k):
         return ("err", err_name(e))
 
 
+def shrink_list(items, still_fails, max_rounds=6):
+    """greedy one-at-a-time removal (ddmin-lite): smallest sub-list (order kept) for which
+    `still_fails(sublist)` is true. `still_fails` must be side-effect free."""
+    cur = list(items)
+    for _ in range(max_rounds):
+        changed = False
+        i = 0
+        while i < len(cur) and len(cur) > 1:
+            cand = cur[:i] + cur[i + 1:]
+            try:
+                bad = still_fails(cand)
+            except Exception:  # noqa: BLE001
+                bad = False
+            if bad:
+                cur, changed = cand, True
+            else:
+                i += 1
+        if not changed:
+            break
+    return cur
+
+
 # --------------------------------------------------------------------------------------
 # known findings
 # --------------------------------------------------------------------------------------
